@@ -343,3 +343,75 @@ def run(p: Program, rep: Report, tier: str) -> None:
     if not got:
         rep.undecide("R9.4", "no accepting path found in BaseHosts.search")
     rep.require_instances("R9.4", 6)
+    _only_mounts_move_the_path(p, rep)
+
+
+PATH_KEYS = {"SCRIPT_NAME", "PATH_INFO", "root_path", "path"}
+
+
+def _only_mounts_move_the_path(p: Program, rep: Report) -> None:
+    """R9.5 (who-may-write): the root path / path pair of a request mapping is written by the mount dispatcher (Subpaths, the
+    private helpers and holder classes it uses) and by nothing else in the package. Any other writer - a middleware that
+    'restores' the pair after the inner application returned its lazy iterable, a router that normalises the path in place -
+    breaks `root path + path is unchanged` for the sub-application (or for code that runs after it)."""
+    from ..common import owner_of
+
+    owners_ok = set()
+    for side in ("wsgi", "asgi"):
+        cls = p.cls(f"baize.{side}.routing:Subpaths")
+        for m in cls.methods.values():
+            owners_ok.add(m.fq)
+    base = p.cls("baize.routing:BaseSubpaths")
+    for m in base.methods.values():
+        owners_ok.add(m.fq)
+    n_ok = 0
+    for fn in p.all_functions():
+        writes = []
+        for n in ast.walk(fn.node):
+            tgts = []
+            if isinstance(n, ast.Assign):
+                for t in n.targets:
+                    tgts += list(t.elts) if isinstance(t, (ast.Tuple, ast.List)) else [t]
+            elif isinstance(n, (ast.AugAssign, ast.AnnAssign)):
+                tgts = [n.target]
+            elif isinstance(n, ast.Delete):
+                tgts = list(n.targets)
+            for t in tgts:
+                if isinstance(t, ast.Subscript) and isinstance(t.slice, ast.Constant) and t.slice.value in PATH_KEYS and not (isinstance(t.value, ast.Name) and t.value.id in ("kwargs", "headers", "options", "params")):
+                    writes.append((n, t.slice.value))
+            if isinstance(n, ast.Call) and isinstance(n.func, ast.Attribute) and n.func.attr in ("pop", "setdefault", "__setitem__", "__delitem__") and n.args \
+                    and isinstance(n.args[0], ast.Constant) and n.args[0].value in PATH_KEYS and isinstance(n.func.value, ast.Name) and n.func.value.id in ("environ", "scope", "request"):
+                writes.append((n, n.args[0].value))
+        if not writes:
+            continue
+        try:
+            own = owner_of(p, fn)
+        except Exception:
+            own = fn
+        top = own
+        while top.parent is not None:
+            top = top.parent
+        in_mount = top.fq in owners_ok or (top.cls is not None and top.cls.name.startswith("_") and top.module.name.endswith("routing")) \
+            or (top.cls is None and top.name.startswith("_") and top.module.name.endswith("routing"))
+        if in_mount:
+            n_ok += 1
+            rep.analysed(fn.fq)
+        else:
+            node, key = writes[0]
+            rep.violation("R9.5", construct(fn, text=f"writes {key}"), where(fn, node),
+                          f"{fn.fq} writes {key!r} of a request mapping: only the mount dispatcher (Subpaths) moves a prefix between root path and path. A second writer - e.g. a middleware restoring the pair "
+                          "once the inner application has returned its (lazy) iterable - makes a mounted sub-application see a root path + path that is no longer the request's")
+    if not n_ok:
+        # the rewrite may sit in a private helper of a routing module that receives the key names as arguments
+        # (`request[root_key] = ...`): a writer with computed keys, still the mount dispatcher's own code
+        for fn in p.all_functions():
+            if fn.module.name.endswith("routing") and fn.name.startswith("_") and not fn.name.startswith("__") and any(
+                    isinstance(n, ast.Assign) and any(isinstance(t, ast.Subscript) and isinstance(t.slice, ast.Name) and t.slice.id in fn.params and isinstance(t.value, ast.Name) and t.value.id in fn.params for t in n.targets)
+                    for n in ast.walk(fn.node)):
+                n_ok += 1
+                rep.analysed(fn.fq)
+    if n_ok:
+        rep.ok("R9.5", f"the root path / path pair is written only by the mount dispatchers ({n_ok} writer functions, all of Subpaths)")
+    else:
+        rep.undecide("R9.5", "no writer of SCRIPT_NAME/PATH_INFO/root_path/path found (mount rewrite anchor vanished?)")
+    rep.require_instances("R9.5", 1)
